@@ -268,6 +268,9 @@ struct Shared {
 	q_listener: Mutex<Vec<Option<bool>>>,
 	/// sounds playing ON a sub-track payload: (payload id of the track, dropped on a thread other than the caller's)
 	inner_drops: Mutex<Vec<(usize, bool)>>,
+	/// sounds that were meant to be finished the moment `into_sound` returned and were not (premise of the
+	/// born-finished histories; payload ids)
+	born_not_finished: Mutex<Vec<usize>>,
 }
 impl Shared {
 	fn log_drop(&self, pid: usize) {
@@ -312,6 +315,71 @@ impl Drop for InnerSound {
 	fn drop(&mut self) {
 		let other = std::thread::current().id() != self.sh.main;
 		lk(&self.sh.inner_drops).push((self.owner, other));
+	}
+}
+
+/// one of kira's OWN static sounds behind a probe: everything (`finished()` above all) is answered by the real
+/// `StaticSound`; the probe only reports the callbacks that reached it and the thread that destroyed it
+struct WrappedSound {
+	pid: usize,
+	sh: Arc<Shared>,
+	inner: Box<dyn Sound>,
+}
+impl Sound for WrappedSound {
+	fn on_start_processing(&mut self) {
+		lk(&self.sh.order).push(self.pid);
+		self.inner.on_start_processing();
+	}
+	fn process(&mut self, out: &mut [Frame], dt: f64, info: &Info) {
+		self.inner.process(out, dt, info);
+	}
+	fn finished(&self) -> bool {
+		self.inner.finished()
+	}
+}
+impl Drop for WrappedSound {
+	fn drop(&mut self) {
+		self.sh.log_drop(self.pid);
+	}
+}
+/// sound data whose sound is finished the moment `into_sound` returns (`Op::Create` directly followed by
+/// `Op::Mark` of itself in a born-finished history, see `BORN_LEGEND`)
+struct BornFinished {
+	pid: usize,
+	sh: Arc<Shared>,
+	how: u8,
+}
+const BORN_HOW: usize = 4;
+const BORN_LEGEND: [&str; BORN_HOW] = [
+	"a user-defined Sound whose finished() is true from the start",
+	"kira's StaticSoundData of 4 frames at 1000 Hz with reverse(true) and start_position Samples(10) (nothing to play)",
+	"kira's StaticSoundData of 0 frames with reverse(true)",
+	"kira's StaticSoundData of 6 frames at 1000 Hz with reverse(true) and start_position Seconds(0.006) (first position before the first frame)",
+];
+impl SoundData for BornFinished {
+	type Error = ();
+	type Handle = ();
+	fn into_sound(self) -> Result<(Box<dyn Sound>, ()), ()> {
+		use kira::sound::static_sound::StaticSoundSettings;
+		use kira::sound::PlaybackPosition;
+		let BornFinished { pid, sh, how } = self;
+		let sound: Box<dyn Sound> = if how as usize % BORN_HOW == 0 {
+			Box::new(ProbeSound { pid, sh: sh.clone(), fin: Arc::new(AtomicBool::new(true)) })
+		} else {
+			let (n, start) = match how as usize % BORN_HOW {
+				1 => (4usize, PlaybackPosition::Samples(10)),
+				2 => (0, PlaybackPosition::Samples(0)),
+				_ => (6, PlaybackPosition::Seconds(0.006)),
+			};
+			let mut data = sound_from_frames(1000, vec![Frame::new(0.25, 0.25); n]);
+			data.settings = StaticSoundSettings::new().reverse(true).start_position(start);
+			let (inner, _handle) = data.into_sound().map_err(|_| ())?;
+			Box::new(WrappedSound { pid, sh: sh.clone(), inner })
+		};
+		if !sound.finished() {
+			lk(&sh.born_not_finished).push(pid);
+		}
+		Ok((sound, ()))
 	}
 }
 
@@ -588,6 +656,8 @@ struct World {
 	keep_spatial: Vec<SpatialTrackHandle>,
 	/// payload ids of the successful creations, in creation order
 	created: Vec<usize>,
+	/// the next sound to be created is finished at creation (`BornFinished::how`)
+	born_next: Option<u8>,
 	mgr: Mgr,
 }
 
@@ -611,6 +681,7 @@ fn new_shared() -> Arc<Shared> {
 		q_clock: Mutex::new(None),
 		q_listener: Mutex::new(vec![]),
 		inner_drops: Mutex::new(vec![]),
+		born_not_finished: Mutex::new(vec![]),
 	})
 }
 
@@ -673,6 +744,7 @@ impl World {
 			keep_tracks: vec![],
 			keep_spatial: vec![],
 			created: vec![],
+			born_next: None,
 			mgr,
 		}
 	}
@@ -806,6 +878,17 @@ impl World {
 			Kind::SoundMain | Kind::SoundSub | Kind::SoundSpatial | Kind::SoundPersist => {
 				// the payload is built before the reservation: the id is consumed by every attempt
 				let pid = sh.next_pid.fetch_add(1, Ordering::SeqCst);
+				if let Some(how) = self.born_next.take() {
+					// finished before `play` has even seen it: created all the same (or refused, on a full track)
+					return match self.play_any(BornFinished { pid, sh: sh.clone(), how }) {
+						Ok(()) => {
+							self.created.push(pid);
+							CreateRes::Created(None)
+						}
+						Err(PlaySoundError::SoundLimitReached) => CreateRes::Limit,
+						Err(_) => panic!("unexpected play error"),
+					};
+				}
 				let fin = Arc::new(AtomicBool::new(false));
 				let data = Boxed(Box::new(ProbeSound { pid, sh: sh.clone(), fin: fin.clone() }));
 				match self.play_any(data) {
@@ -1369,6 +1452,13 @@ fn run_history(kind: Kind, cap: usize, ops: &[Op]) -> HistOut {
 /// `flavour`: the way every failing `play` of the history fails (0 a streaming sound whose decoder cannot
 /// seek, 1 `into_sound` returns `Err`, 2 `into_sound` panics) instead of the choice by position
 fn run_history_f(kind: Kind, cap: usize, ops: &[Op], flavour: Option<usize>) -> HistOut {
+	run_history_b(kind, cap, ops, flavour, None)
+}
+/// `born` (sound kinds): every `OCreate` that is directly followed by `OMark` of the payload it creates is a
+/// sound that is ALREADY finished when `into_sound` returns (`BORN_LEGEND[born]`), instead of a probe sound
+/// whose flag is set right after `play` — for the property (and the model) the same thing: created, counted,
+/// refused on a full track, picked up by the next callback, removed by the one after
+fn run_history_b(kind: Kind, cap: usize, ops: &[Op], flavour: Option<usize>, born: Option<u8>) -> HistOut {
 	let mask = kind.mask();
 	let has = |b: i128| mask & b != 0;
 	let mut w = World::new(kind, cap);
@@ -1409,6 +1499,11 @@ fn run_history_f(kind: Kind, cap: usize, ops: &[Op], flavour: Option<usize>) -> 
 				}
 				let expect_ok = rf.would_succeed();
 				let alive = rf.count();
+				if let Some(how) = born {
+					if kind.is_sound() && ops.get(i + 1) == Some(&Op::Mark(rf.next)) {
+						w.born_next = Some(how);
+					}
+				}
 				let r = catch(|| w.create());
 				let success = match r {
 					Outcome::Ok(CreateRes::Created(k)) => {
@@ -1700,6 +1795,24 @@ fn run_history_f(kind: Kind, cap: usize, ops: &[Op], flavour: Option<usize>) -> 
 			}
 		}
 	}
+	if let Some(how) = born {
+		let bad = lk(&w.sh.born_not_finished).clone();
+		if !bad.is_empty() && fail.is_none() {
+			fail = Some(format!(
+				"{} capacity {} ops [{}]: invalid history: payloads {bad:?} ({}) were NOT finished when into_sound returned",
+				kind.name(),
+				cap,
+				ops_term_of(kind, ops),
+				BORN_LEGEND[how as usize % BORN_HOW]
+			));
+		}
+		if let Some(f) = fail.as_mut() {
+			f.push_str(&format!(
+				" [every OCreate directly followed by OMark of the payload it creates is a sound that is finished at creation: {}; such a sound is created like any other: it takes a slot and is counted until the second callback after its creation, and a full track refuses it]",
+				BORN_LEGEND[how as usize % BORN_HOW]
+			));
+		}
+	}
 	if let Some(f) = fail.as_mut() {
 		let b: Vec<String> = rf.res.iter().filter(|r| r.marked).filter_map(|r| busy.get(&r.pid).map(|w| format!("payload {}: {}", r.pid, busy_desc(kind, r.pid, *w)))).collect();
 		if !b.is_empty() {
@@ -1766,6 +1879,18 @@ impl Gen {
 	fn callback(&mut self) {
 		self.rf.callback();
 		self.ops.push(Op::Callback);
+	}
+	/// a creation directly followed by the mark of the payload it creates (a sound finished at creation in
+	/// the born-finished histories); on a full storage the creation is refused and the mark names nothing
+	fn born(&mut self) {
+		if self.abandoned {
+			return;
+		}
+		let p = self.rf.next;
+		self.rf.create();
+		self.ops.push(Op::Create);
+		self.rf.mark(p);
+		self.ops.push(Op::Mark(p));
 	}
 	/// pause (0) / resume (1) / resume-at-never (2) the track that owns the storage (kinds that have one)
 	fn parent(&mut self, what: u8) {
@@ -3114,6 +3239,203 @@ fn real_sounds(which: usize) -> Result<String, String> {
 	Ok(log)
 }
 
+// ------------------------------------------------------------------------------------------------
+// sounds that are finished at creation (seeded/C08-finished-at-creation-skips-renderer): a sound whose
+// `finished()` is true the moment `into_sound` returns has been CREATED all the same: `play` refuses it
+// with SoundLimitReached on a full track, and otherwise it takes a slot and is counted until the second
+// callback after its creation (finished before the audio thread had picked it up: "the one after")
+// ------------------------------------------------------------------------------------------------
+
+fn emit_born(s: &mut Session, kind: Kind, cap: usize, ops: &[Op], how: u8, tag: &str) {
+	let h = run_history_b(kind, cap, ops, None, Some(how));
+	let term = case_term(kind, cap, ops);
+	s.case(&format!("born_finished_{tag}"), term.clone(), &h.obs, Some(format!("born/{}/{}/{}/{}", kind.name(), cap, how, ops_term_of(kind, ops))));
+	if let Some(what) = h.fail {
+		s.fail(term, what, None);
+	}
+}
+
+/// the fixed histories (the same on every run): on a full track / on an empty track / between other sounds
+fn born_directed(cap: usize) -> Vec<Vec<Op>> {
+	use Op::*;
+	let mut out: Vec<Vec<Op>> = vec![];
+	// full track (picked up or still queued), then one that is finished at creation: refused, count unchanged
+	for settle in [true, false] {
+		let mut h: Vec<Op> = vec![Create; cap];
+		if settle {
+			h.push(Callback);
+		}
+		h.extend([Create, Mark(cap), Callback, Create, Mark(cap + 1), Callback]);
+		out.push(h);
+	}
+	if cap >= 1 {
+		// alone on the track: counted at once, still counted after the first callback, gone after the second,
+		// and the slot can be used again
+		let mut h = vec![Create, Mark(0), Callback, Callback];
+		h.extend(vec![Create; cap + 1]);
+		h.push(Callback);
+		out.push(h);
+		// it takes the last slot: the track is full until the second callback
+		let mut h: Vec<Op> = vec![Create; cap - 1];
+		h.extend([Create, Mark(cap - 1), Create, Callback, Create, Callback, Create, Create, Callback]);
+		out.push(h);
+		// only sounds that are finished at creation: the capacity counts them too
+		let mut h: Vec<Op> = vec![];
+		for p in 0..=cap {
+			h.extend([Create, Mark(p)]);
+		}
+		h.extend([Callback, Create, Mark(cap + 1), Callback, Create, Mark(cap + 2), Create, Callback]);
+		out.push(h);
+	}
+	out
+}
+
+/// seeded: histories around the limit in which a random share of the creations is finished at creation
+fn gen_born(r: &mut Rng, kind: Kind, cap: usize) -> Vec<Op> {
+	let len = r.range(6, 30) as usize;
+	let mut g = Gen::new(kind, cap);
+	while g.ops.len() < len {
+		match r.below(12) {
+			0 | 1 | 2 => g.born(),
+			3 => {
+				// on a track that is exactly full
+				if cap <= 16 {
+					g.fill();
+				}
+				if r.chance(1, 2) {
+					g.callback();
+				}
+				g.born();
+			}
+			4 => {
+				// on a track with exactly one slot left, then one more
+				if cap <= 16 {
+					g.fill();
+					g.mark_random(r);
+					g.callback();
+					g.callback();
+				}
+				g.born();
+				g.create();
+			}
+			5 => {
+				let k = 1 + r.below(cap.min(4) as u64 + 1);
+				for _ in 0..k {
+					g.born();
+				}
+			}
+			6 | 7 => g.create(),
+			8 => g.mark_random(r),
+			9 => {
+				g.callback();
+				g.callback();
+			}
+			_ => g.callback(),
+		}
+	}
+	g.ops
+}
+
+/// no probes at all: kira's own `StaticSoundData` through `play`, the handle kept (monitors only)
+fn real_born(which: usize, cap: usize, fill: usize) -> Result<(), String> {
+	use kira::sound::static_sound::StaticSoundSettings;
+	use kira::sound::PlaybackPosition;
+	let name = ["main track", "sub-track", "spatial sub-track"][which];
+	let mut main = MainTrackBuilder::new();
+	if which == 0 {
+		main = main.sound_capacity(cap);
+	}
+	let mut mgr = manager(1000, 16, Capacities::default(), main);
+	let listener = mgr.add_listener(zero3(), quat_id()).map_err(|_| "aux listener".to_string())?;
+	let mut plain = None;
+	let mut spatial = None;
+	match which {
+		1 => plain = Some(mgr.add_sub_track(TrackBuilder::new().sound_capacity(cap)).map_err(|_| "aux track".to_string())?),
+		2 => spatial = Some(mgr.add_spatial_sub_track(listener.id(), zero3(), SpatialTrackBuilder::new().sound_capacity(cap)).map_err(|_| "aux track".to_string())?),
+		_ => {}
+	}
+	macro_rules! play {
+		($d:expr) => {
+			match which {
+				1 => plain.as_mut().unwrap().play($d),
+				2 => spatial.as_mut().unwrap().play($d),
+				_ => mgr.play($d),
+			}
+		};
+	}
+	macro_rules! count {
+		() => {
+			match which {
+				1 => plain.as_ref().unwrap().num_sounds(),
+				2 => spatial.as_ref().unwrap().num_sounds(),
+				_ => mgr.main_track().num_sounds(),
+			}
+		};
+	}
+	let long = || sound_from_frames(1000, vec![Frame::new(0.25, 0.25); 100000]);
+	let nothing = || {
+		let mut d = sound_from_frames(1000, vec![Frame::new(0.25, 0.25); 4]);
+		d.settings = StaticSoundSettings::new().reverse(true).start_position(PlaybackPosition::Samples(10));
+		d
+	};
+	let what = format!("{name} of sound capacity {cap}, {fill} long static sounds (100000 frames at 1000 Hz) playing, then play(StaticSoundData of 4 frames, reverse(true), start_position Samples(10): nothing to play, finished at creation)");
+	let cb = |mgr: &mut Mgr| -> Result<(), String> {
+		let b = mgr.backend_mut();
+		match std::thread::scope(|sc| sc.spawn(move || catch(|| {
+			b.callback(4, 2);
+		})).join()) {
+			Ok(Outcome::Ok(())) => Ok(()),
+			_ => Err(format!("{name}: a callback panicked: {}", last_panic())),
+		}
+	};
+	let mut keep = vec![];
+	for j in 0..fill {
+		keep.push(play!(long()).map_err(|_| format!("{what}: long sound {j} refused"))?);
+	}
+	cb(&mut mgr)?;
+	if count!() != fill {
+		return Err(format!("{what}: count {} with {fill} sounds playing", count!()));
+	}
+	let r = play!(nothing());
+	if fill >= cap {
+		return match r {
+			Err(PlaySoundError::SoundLimitReached) if count!() == fill => Ok(()),
+			Err(PlaySoundError::SoundLimitReached) => Err(format!("{what}: refused, but the count went to {}", count!())),
+			Err(_) => Err(format!("{what}: an error other than SoundLimitReached")),
+			Ok(h) => Err(format!(
+				"{what}: play returned Ok (handle state {:?}, count {}) although {fill} sounds are alive on a track of capacity {cap}; creation on a full track has to return SoundLimitReached",
+				h.state(),
+				count!()
+			)),
+		};
+	}
+	let h = r.map_err(|_| format!("{what}: refused although only {fill} of {cap} slots are taken"))?;
+	if count!() != fill + 1 {
+		return Err(format!("{what}: play returned Ok (handle state {:?}), nothing was removed, and the count is {} instead of {} (created - removed)", h.state(), count!(), fill + 1));
+	}
+	// the remaining slots, and one more
+	for j in fill + 1..cap {
+		keep.push(play!(long()).map_err(|_| format!("{what}: then long sound {j} refused although only {j} of {cap} slots are taken"))?);
+	}
+	if !matches!(play!(long()), Err(PlaySoundError::SoundLimitReached)) {
+		return Err(format!("{what}; then the track was filled up: one more sound was not refused (the sound that was finished at creation holds a slot until the second callback after its creation)"));
+	}
+	cb(&mut mgr)?;
+	if count!() != cap {
+		return Err(format!("{what}; track filled up; first callback after (the sounds are picked up): count {} instead of {cap}", count!()));
+	}
+	cb(&mut mgr)?;
+	if count!() != cap - 1 {
+		return Err(format!("{what}; track filled up; second callback after (the finished sound is removed): count {} instead of {}", count!(), cap - 1));
+	}
+	keep.push(play!(long()).map_err(|_| format!("{what}: its slot was not free for reuse after the second callback"))?);
+	if count!() != cap {
+		return Err(format!("{what}: count {} after re-using the slot", count!()));
+	}
+	drop(h);
+	Ok(())
+}
+
 fn parse_ops(s: &str) -> Vec<Op> {
 	s.split(';')
 		.filter_map(|t| {
@@ -3177,6 +3499,52 @@ pub fn run(args: &Args) {
 	);
 	s.keep_case_text = true;
 	let mut seen: HashSet<String> = HashSet::new();
+	// (h) sounds that are finished at creation — FIRST, and the fixed part the same on every run: kira's own
+	// static sound through `play` on the three kinds of track (no probes), then the fixed histories with
+	// every way of being finished at creation, then seeded histories around the limit
+	{
+		for which in 0..3 {
+			for (cap, fill) in [(2usize, 2usize), (1, 1), (2, 0), (2, 1), (1, 0), (3, 1)] {
+				s.eval_only("real_born_finished");
+				if let Err(what) = real_born(which, cap, fill) {
+					s.fail(format!("real_born {which} {cap} {fill}"), what, None);
+				}
+			}
+		}
+		let sound_kinds = [Kind::SoundMain, Kind::SoundSub, Kind::SoundSpatial, Kind::SoundPersist];
+		for kind in sound_kinds {
+			for cap in [2usize, 1, 3, 0] {
+				for (j, ops) in born_directed(cap).iter().enumerate() {
+					for how in 0..BORN_HOW as u8 {
+						// every way on the main track and for the first history; one way (rotating) otherwise
+						if kind == Kind::SoundMain || j == 0 || how as usize == (j + cap) % BORN_HOW {
+							emit_born(&mut s, kind, cap, ops, how, "directed");
+						}
+					}
+				}
+			}
+		}
+		let mut brng = Rng::new(args.seed ^ 0xC08_B0);
+		let n_born = (if args.thorough { 400 } else { 40 }) * args.budget_mul as usize;
+		for kind in sound_kinds {
+			for _ in 0..n_born {
+				let cap = match brng.below(10) {
+					0 => 0,
+					1..=3 => 1,
+					4..=6 => 2,
+					7 | 8 => 3,
+					_ => 5,
+				};
+				let ops = gen_born(&mut brng, kind, cap);
+				let how = brng.below(BORN_HOW as u64) as u8;
+				emit_born(&mut s, kind, cap, &ops, how, "random");
+			}
+		}
+		s.notes.push(format!(
+			"sounds finished at creation (in the born_finished_* cases every OCreate directly followed by OMark of its own payload; how = {:?}): created like any other sound (refused on a full track, counted until the second callback after creation)",
+			BORN_LEGEND
+		));
+	}
 	let n_random = (if args.thorough { 1500 } else { 150 }) * args.budget_mul as usize;
 	for kind in KINDS {
 		let t_kind = std::time::Instant::now();
